@@ -31,7 +31,15 @@ Expected(c) == StratifiedModelFuel(RulesOf(c), SetOf(c.edb), Fuel(c))
 IsAgg(c) == "family" \in DOMAIN c /\ c.family = "agg"
 ListAsSet(x) == IF x[1] = "list" THEN <<"set", Ran(x[2]), Len(x[2])>> ELSE x
 NormFact(f) == [p |-> f.p, a |-> [i \in DOMAIN f.a |-> ListAsSet(f.a[i])]]
-Observed(c, v) == IF IsAgg(c) THEN {NormFact(f) : f \in SetOf(v.got)} ELSE SetOf(v.got)
+\* External predicates (family "ext"): the binary predicate e is declared external() with mode (+, -) and served by a
+\* callback backed by the case's e-facts.  The engine stores only the e-facts it asked for, so the stores are compared
+\* on all other predicates; the e-facts observed must be facts of the table.
+IsExt(c) == "family" \in DOMAIN c /\ c.family = "ext"
+ExtPred == "e"
+Proj(c, S) == IF IsExt(c) THEN {f \in S : f.p # ExtPred} ELSE S
+ObservedAll(c, v) == IF IsAgg(c) THEN {NormFact(f) : f \in SetOf(v.got)} ELSE SetOf(v.got)
+Observed(c, v) == Proj(c, ObservedAll(c, v))
+ExtInvented(c, v) == IsExt(c) /\ v.outcome = "ok" /\ ~({f \in ObservedAll(c, v) : f.p = ExtPred} \subseteq SetOf(c.edb))
 
 (***************************************************************************)
 (* Limit family (C17): the case carries the configured created-fact limit. *)
@@ -52,7 +60,7 @@ LimitVerdict(c, v) ==
   ELSE IF ~Converged(c) THEN (IF v.outcome = "ok" THEN "TRUNCATED_OK" ELSE "fine")
   ELSE LET M == StratifiedModelFuel(RulesOf(c), SetOf(c.edb), LimitFuel(c)) IN
        IF HasErr(RulesOf(c), M) THEN "fine"
-       ELSE IF v.outcome = "ok" THEN (IF Observed(c, v) = M THEN "fine" ELSE "MODEL_MISMATCH")
+       ELSE IF v.outcome = "ok" THEN (IF Observed(c, v) = Proj(c, M) THEN "fine" ELSE "MODEL_MISMATCH")
        ELSE IF v.outcome \in {"eval_err", "panic"} THEN "EVAL_FAILURE"
        ELSE "fine"
 
@@ -68,7 +76,7 @@ Verdict(c, v) ==
   IF ~AllSafe(c) THEN (IF v.outcome = "ok" THEN "ACCEPTED_UNSAFE" ELSE "fine")
   ELSE IF ~Stratifiable(RulesOf(c)) THEN (IF v.outcome = "ok" THEN "ACCEPTED_UNSTRATIFIABLE" ELSE "fine")
   ELSE IF HasErr(RulesOf(c), Expected(c)) THEN "fine"   \* run-time kind error: no model to compare with
-  ELSE CASE v.outcome = "ok" -> IF Observed(c, v) = Expected(c) THEN "fine" ELSE "MODEL_MISMATCH"
+  ELSE CASE v.outcome = "ok" -> IF ExtInvented(c, v) THEN "EXT_FACTS_INVENTED" ELSE IF Observed(c, v) = Proj(c, Expected(c)) THEN "fine" ELSE "MODEL_MISMATCH"
          [] v.outcome = "strat_err" -> "SPURIOUS_STRAT_ERR"
          [] v.outcome \in {"eval_err", "panic"} -> "EVAL_FAILURE"
          [] OTHER -> "fine"
